@@ -37,8 +37,11 @@ struct StepCfg {
 }
 fn cfgs(n: usize) -> Vec<StepCfg> {
     let mut v = Vec::new();
-    for bits in 0..16u8 {
-        v.push(StepCfg { inverted: bits & 1 != 0, omit_fwd: bits & 2 != 0, omit_inv: bits & 4 != 0, count: if bits & 8 != 0 { n - 1 } else { n } });
+    for bits in 0..8u8 {
+        // a step may succeed for all, some or none of the tuples; later steps run regardless
+        for count in [n, n - 1, 0] {
+            v.push(StepCfg { inverted: bits & 1 != 0, omit_fwd: bits & 2 != 0, omit_inv: bits & 4 != 0, count });
+        }
     }
     v
 }
@@ -129,7 +132,7 @@ fn check(top: &Ref, fails: &mut Vec<String>, evaluated: &mut usize) {
     }
 }
 
-//@n {"id":"C03.N.pipeline.compose","props":["C03","C10","C01"],"tier":"quick","bound":"all pipelines of 0..=3 tag steps x {inverted, omit_fwd, omit_inv, count in {n, n-1}} per step (16^3 + 16^2 + 16 + 1 = 4369 pipelines) x outer pipeline inverted or not x both directions; 2 tuples","text":"forward application = the steps in order, inverse = the inverse of each step in reverse order; an inverted step exchanges its two directions; omit_fwd steps are skipped forward, omit_inv steps inverse; modifiers of one step affect no other; count = minimum over the executed steps, the set size if none executed; other coordinates untouched -- against a reference interpreter written from the property statement"}
+//@n {"id":"C03.N.pipeline.compose","props":["C03","C10","C01"],"tier":"quick","bound":"all pipelines of 0..=3 tag steps x {inverted, omit_fwd, omit_inv, count in {n, n-1, 0}} per step (24^3 + 24^2 + 24 + 1 = 14425 pipelines) x outer pipeline inverted or not x both directions; 2 tuples","text":"forward application = the steps in order, inverse = the inverse of each step in reverse order; an inverted step exchanges its two directions; omit_fwd steps are skipped forward, omit_inv steps inverse; modifiers of one step affect no other; count = minimum over the executed steps, the set size if none executed; other coordinates untouched -- against a reference interpreter written from the property statement"}
 #[test]
 fn verif_native_c03_pipeline_compose() {
     let n = 2;
@@ -151,7 +154,7 @@ fn verif_native_c03_pipeline_compose() {
         }
     }
     assert!(fails.is_empty(), "C03.N.pipeline.compose: {} of {} evaluations disagree with the reference, first: {:?}", fails.len(), evaluated, &fails[..fails.len().min(3)]);
-    assert!(evaluated == 2 * 2 * 4369, "all configurations evaluated");
+    assert!(evaluated == 2 * 2 * (1 + 24 + 24 * 24 + 24 * 24 * 24), "all configurations evaluated");
 }
 
 //@n {"id":"C03.N.pipeline.nested","props":["C03"],"tier":"quick","bound":"outer pipeline [tag, inner pipeline of 2 tag steps, tag]; inner pipeline with every combination of {inverted, omit_fwd, omit_inv}; inner steps with every combination of {inverted, omit_fwd, omit_inv}; outer steps plain or inverted; both directions (8 x 8 x 8 x 4 x 2 = 4096 evaluations)","text":"a step that is itself a pipeline (as a macro expansion produces) behaves as that pipeline as a stand-alone operator: inverting it runs its steps inverted in reverse order, its own omit flags skip it as a whole, inner omit flags refer to the direction the inner pipeline is actually run in, and no modifier leaks between the levels"}
